@@ -1128,11 +1128,96 @@ def c10_22(ctx):
 
 
 
+def c10_23(ctx):
+    """the global xpub record, evaluated: NamedHDPublicKey.parse followed by .serialize() over {xpub, tpub version bytes -- the two the serialiser
+    itself writes} × key-origin paths {m, m/45', m/48'/0'/0'/2', m/48'/1'/0'/2', m/84'/1'/0', m/0/1} × network argument {None (PSBT.parse's
+    default), the version's own network}: the record written back is the record read.  The path must not decide which version bytes are
+    written back: a tpub whose origin is not a coin-type-1 path would come back as an xpub"""
+    from sa.cells import ClassRef, Evaluator, FileStandIn, Obj, Raised, Undecided
+    spec = "psbt:NamedHDPublicKey.parse"
+    mod, fn = rl.get(ctx, spec)
+    hooks = {("S256Point", "parse"): lambda cls, b, *a, **k: Obj("pecc", "S256Point", {"sec_": bytes(b)}), ("S256Point", "sec"): lambda o, *a, **k: o.attrs["sec_"]}
+    H = 0x80000000
+    paths = [("m", []), ("m/45'", [45 + H]), ("m/48'/0'/0'/2'", [48 + H, H, H, 2 + H]), ("m/48'/1'/0'/2'", [48 + H, 1 + H, H, 2 + H]), ("m/84'/1'/0'", [84 + H, 1 + H, H]), ("m/0/1", [0, 1])]
+    n = 0
+    for ver, family in ((bytes.fromhex("0488b21e"), "mainnet"), (bytes.fromhex("043587cf"), "testnet")):
+        for label, comps in paths:
+            for net in (None, family):
+                n += 1
+                child = comps[-1] if comps else 0
+                key = b"\x01" + ver + bytes([len(comps)]) + (b"\xaa\xbb\xcc\xdd" if comps else bytes(4)) + child.to_bytes(4, "big") + bytes(range(32)) + b"\x02" + b"\x11" * 32
+                val = b"\x5a\x5b\x5c\x5d" + b"".join(c.to_bytes(4, "little") for c in comps)
+                record = bytes([len(key)]) + key + bytes([len(val)]) + val
+                try:
+                    ev = Evaluator(ctx.repo, method_hooks=hooks)
+                    o = ev.call(spec, [key, FileStandIn(bytes([len(val)]) + val)], kwargs={"network": net}, self_obj=ClassRef("psbt", "NamedHDPublicKey"))
+                    back = ev.call("psbt:NamedHDPublicKey.serialize", [], self_obj=o)
+                except Raised as x:
+                    return [ctx.bad(spec, "a global xpub record with version %s and key origin %s (network argument %s) is refused: %s" % (ver.hex(), label, net, x.name), fn, mod, key="xpub-record")]
+                except Undecided as u:
+                    return [ctx.err(spec, "global xpub record not evaluable: %s" % u, fn, mod)]
+                if back != record:
+                    what = "version bytes %s" % back[2:6].hex() if isinstance(back, bytes) and back[2:6] != ver and back[6:] == record[6:] else "other bytes"
+                    return [ctx.bad(spec, "a global xpub record with version %s (%s) and key origin %s, parsed with network=%s, is written back with %s: the PSBT the library built "
+                                          "does not re-serialise to its own bytes after serialise → parse" % (ver.hex(), "tpub" if family == "testnet" else "xpub", label, net, what),
+                                    fn, mod, key="xpub-record")]
+    ctx.count("cells", n)
+    return [ctx.ok(spec, "%d (version, key origin, network argument) cells: the record written back is the record read" % n, fn, mod, key="xpub-record")]
+
+
+
+def c10_24(ctx):
+    """SIBLING map key: every producer of the global-xpub map (`hd_pubs`: PSBT.parse, create_multisig_psbt, anything else in the anchored modules
+    that stores into a dictionary of that name) keys an entry by the same function of the entry.  PSBT.combine unites two such maps by key and
+    PSBT.serialize writes one record per key, so two producers that key one xpub differently make a combined PSBT carry the record twice --
+    bytes BIP174 forbids and that do not survive parse → serialize"""
+    sites = []
+    for modname in ("psbt", "psbt_helper"):
+        mod = ctx.repo.modules.get(modname)
+        if mod is None:
+            continue
+        for qn, fn in mod.functions.items():
+            for st in ast.walk(fn):
+                if isinstance(st, ast.Assign) and len(st.targets) == 1 and isinstance(st.targets[0], ast.Subscript):
+                    tgt = st.targets[0]
+                    base = tgt.value
+                    nm = base.id if isinstance(base, ast.Name) else (base.attr if isinstance(base, ast.Attribute) else None)
+                    if nm != "hd_pubs":
+                        continue
+                    key, val = tgt.slice, st.value
+                    # the key as a function of the stored value: `<value>.<method>()`
+                    shape = None
+                    if isinstance(key, ast.Call) and isinstance(key.func, ast.Attribute) and not key.args and not key.keywords and ast.unparse(key.func.value) == ast.unparse(val):
+                        shape = key.func.attr + "()"
+                    sites.append((modname, qn, st, shape))
+    if len(sites) < 2:
+        raise AnalysisError("hd_pubs producers: fewer than two stores into the global-xpub map found (%d)" % len(sites))
+    out = []
+    ref = next(((m, q, st, sh) for m, q, st, sh in sites if q == "PSBT.parse"), None)
+    if ref is None:
+        raise AnalysisError("hd_pubs producers: PSBT.parse does not store into hd_pubs")
+    for m, q, st, sh in sites:
+        spec = "%s:%s" % (m, q)
+        mod = ctx.repo.modules[m]
+        if sh is None or ref[3] is None:
+            out.append(ctx.err(spec, "global-xpub map store `%s` is not keyed by a method of the stored key" % ast.unparse(st), st, mod))
+        elif sh == ref[3]:
+            out.append(ctx.ok(spec, "global-xpub map keyed by <key>.%s, as in PSBT.parse" % sh, st, mod, key="hd-pubs-key:" + q))
+        else:
+            out.append(ctx.bad(spec, "the global-xpub map is keyed by <key>.%s here and by <key>.%s in PSBT.parse (line %d): combining a PSBT from this producer with a parsed one keeps "
+                                     "both entries of every xpub, the combined PSBT is serialised with duplicate global xpub records and does not re-serialise to itself" % (sh, ref[3], ref[2].lineno),
+                               st, mod, key="hd-pubs-key:" + q))
+    return out
+
+
+
 OBLIGATIONS = [
     ("C10.19", "CELLS output metadata", c10_19),
     ("C10.20", "CELLS finaliser", c10_20),
     ("C10.21", "CELLS updater sources", c10_21),
     ("C10.22", "CELLS global map round trip", c10_22),
+    ("C10.23", "CELLS global xpub record", c10_23),
+    ("C10.24", "SIBLING map key", c10_24),
     ("C10.18", "SHARED", c10_18),
     ("C10.17", "SET-ORDER", c10_17),
     ("C10.12", "DATAFLOW commitment", c10_12),
